@@ -68,6 +68,11 @@ type RunCtx struct {
 	// checking afterwards); they are reported if they are not known findings.
 	Soft []*Violation
 
+	// PostCheck, when set, runs after the bubble has ended (on the real
+	// clock): history checkers with real-time budgets (porcupine) belong here.
+	PostCheck func() *Violation
+	// Inconclusive counts checks that could not be decided (e.g. a
+	// linearizability check that timed out); never reported as violations.
 	worlds  []*world.World
 	cleanup []func()
 }
@@ -211,6 +216,19 @@ func ExecRun(t *testing.T, sc *Scenario, tapes *sim.Tapes, tier string, keepLog 
 		}
 		res.Tapes = tapes.Data()
 	}()
+	var post func() *Violation
+	var postStats *Stats
+	defer func() {
+		if post != nil && res.Violation == nil && res.HarnessErr == "" {
+			res.Violation = post()
+			for k, v := range postStats.Counters {
+				if res.Counters == nil {
+					res.Counters = map[string]int64{}
+				}
+				res.Counters[k] = v
+			}
+		}
+	}()
 	synctest.Test(t, func(t *testing.T) {
 		pol := sim.Policy{}
 		if sc.Policy != nil {
@@ -279,6 +297,8 @@ func ExecRun(t *testing.T, sc *Scenario, tapes *sim.Tapes, tier string, keepLog 
 			res.HarnessErr = err.Error()
 		}
 		res.Violation = v
+		post = rc.PostCheck
+		postStats = rc.Stats
 	})
 	return res
 }
